@@ -124,9 +124,16 @@ for mid, (prop, change, needs, first) in sorted(M.items()):
         "own_property_check_fires": prop in caught,
     }
     json.dump(meta, open(os.path.join(d, "meta.json"), "w"), indent=1)
-rows = ["| id | property | change | needs | first round | now |", "|----|----------|--------|-------|-------------|-----|"]
+rows = ["| id | property | change | needs | first | now |", "|----|----------|--------|-------|-------------|-----|"]
 for mid, (prop, change, needs, first) in sorted(M.items()):
     meta = json.load(open(f"/verif/seeded/{mid}/meta.json"))
     rows.append(f"| {mid} | {prop} | {change} | {needs} | {' '.join(first) or '—'} | {' '.join(meta['detected_by_now']) or '—'} |")
 open("/verif/seeded/TABLE.md", "w").write("\n".join(rows) + "\n")
+# embed in DESIGN.md between the markers
+dp = "/verif/DESIGN.md"
+ds = open(dp).read()
+b, e_ = "<!-- SEEDED-TABLE-BEGIN -->", "<!-- SEEDED-TABLE-END -->"
+if b in ds and e_ in ds:
+    ds = ds[:ds.index(b) + len(b)] + "\n" + "\n".join(rows) + "\n" + ds[ds.index(e_):]
+    open(dp, "w").write(ds)
 print("\n".join(rows[:5]))
